@@ -82,6 +82,9 @@ class SetMutator(CollectionAttrMutator):
         )
 
     def remove_item(self, item):  # pylint: disable=arguments-renamed,arguments-differ
+        if self.collection is MISSING:
+            # As for the other element helpers: a missing collection is empty.
+            self.collection = self._create_collection()
         key, _ = self._extractor(item, raise_if_missing=True)
         self.collection.remove(key)
         return self
